@@ -225,6 +225,26 @@ def run(prog: Program, col: Collector, tier: str, refs: Optional[Refs] = None, c
             col.ok(construct, "no parameter with a constant default is called", f.loc(), nontrivial=False)
     col.cur.analysed["op_implementations"] = n_impl
 
+    # ---------------------------------------------------------------- R15.13 boolean ops are closed on Python bools
+    col.rule("R15.13", "an op whose scalar default is a bitwise operator has a boolean implementation for Python bools when that operator leaves the booleans", floor=1)
+    # external fact (Python data model): on bool operands operator.and_/or_/xor return bool, operator.invert returns int (~True == -2)
+    LEAVES_BOOLEANS = {"operator.invert", "operator.inv", "operator.neg", "operator.pos"}
+    for fq, o in sorted(cat.ops.items()):
+        if o.parent_is_op or not o.impl_ext:
+            continue
+        ab = axioms.identify(cat, o)
+        if ab not in ("INVERT", "AND", "OR", "XOR"):
+            continue
+        construct = f"{fq}::closed on bool"
+        if o.impl_ext not in LEAVES_BOOLEANS:
+            col.ok(construct, f"`{o.impl_ext}` maps bools to bools", o.module.loc(o.node), nontrivial=False)
+            continue
+        covers = [r for r in cat.registrations if r.registry == fq and r.method == "register"
+                  and any("bool" in [norm(x) for x in (p.elts if isinstance(p, ast.Tuple) else [p])] for p in r.pattern)]
+        col.check(bool(covers), construct, f"a registration for `bool` overrides `{o.impl_ext}`",
+                  f"the scalar default of `{o.var}` is `{o.impl_ext}`, which on a Python bool is the integer bitwise operation (~True == -2), and no implementation is registered for "
+                  "`bool`: on a boolean Number the op leaves {False, True} (and Bint[2]) while on a boolean array it is the logical operation", o.module.loc(o.node))
+
     from . import algebra
     algebra.r_commutative_default_symmetric(prog, col, refs, cat, "R15.11")
     for fq, why in sorted(axioms.UNVERIFIED.items()):
